@@ -1,21 +1,27 @@
 """C03 — descriptor handlers run only for kernel-reported conditions, right cookie."""
-from ..core import (names_of, same_value, AnalysisBroken, Inliner, canon, strip, last_member, must_pass, relpath, norm_cond, walk, forward)
-from ..analyses import (is_call, holding, path_to, describe, exits_of, callback_kind, loops, innermost_loop,
-                        list_empty_test, must_pass_from_block)
-from .. import generic
-from . import c01
-
-BANDS = {'handler_in': 1, 'handler_out': 2, 'handler_err': 4}
+from ..core import (AnalysisBroken, canon, strip, norm_cond, forward, root_var)
+from ..analyses import (path_to, describe, exits_of, callback_kind, list_empty_test)
+from .. import generic, roles
+from . import c01, h03
+from .h03 import BANDS, ORDER, FD
 
 
 def run(ctx):
-    ctx.rule('R-C03a', 'dispatch agreement: each call through handler_X is control-dependent on ready_bands & MASK_X and handler_X != NULL '
-                       'of the same descriptor, passes that descriptor\'s cookie, happens at most once per iteration after the descriptor '
-                       'left the batch; order err, in, out', floor=10)
-    ctx.rule('R-C03b', 'readiness bits are per iteration: only the make-ready helper (and registration) write ready_bands; the helper zeroes '
-                       'them and links into the caller\'s batch when the descriptor is not yet in it; only poll-slot activation code calls it', floor=4)
+    # floors recounted after regrouping: R-C03a = 3 bands x 6 site obligations + 1 liveness obligation per dispatching root (19 on the
+    # reference tree); R-C03b = 3 writer roots + 2 value obligations + 2 per poll slot that activates descriptors (13 on the reference tree)
+    ctx.rule('R-C03a', 'dispatch agreement: every call through handler_X of a descriptor (any context, helpers inlined) reads the pointer '
+                       'at the call, and the branch facts that hold there (none older than the last user callback or write) exclude '
+                       'ready_bands & MASK_X == 0 and handler_X == NULL for the same descriptor; it passes that descriptor\'s cookie; '
+                       'since the definition of the descriptor variable the descriptor left the batch and only earlier bands were '
+                       'dispatched (once per iteration, order err, in, out); after a handler the descriptor is re-validated', floor=16)
+    ctx.rule('R-C03b', 'readiness bits are per iteration: only the make-ready operation (found by role: it links list_active) and '
+                       'registration (writing 0) write ready_bands; at return of make-ready the bits are exactly the band argument '
+                       'and the descriptor was linked once into the caller\'s batch when it was not in one, old bits | band argument '
+                       'otherwise; every root that can reach make-ready is a poll slot and calls it only after a kernel wait that '
+                       'did not fail', floor=9)
     ctx.rule('R-C03c', 'registration initialises all dispatch state (INIT-COMPLETE for iv_fd_, per poll method)', floor=16)
-    ctx.rule('R-C03d', 'kernel tokens that are not descriptors (kick token, timer token) are compared against before a batch entry is used as a descriptor', floor=3)
+    ctx.rule('R-C03d', 'kernel tokens that are not descriptors (kick token, timer token; found as the non-descriptor values stored as epoll user data) are '
+                       'compared unequal to the very entry that is then used as a descriptor', floor=3)
     ctx.section(dispatch)
     ctx.section(still_registered)
     ctx.section(ready_bits)
@@ -26,174 +32,401 @@ def run(ctx):
     ctx.section(kernel_registration)
 
 
+def _by_site(contexts):
+    """{(band field, source location): [(root, inlined root, site event)]} over all contexts and all
+    copies that flag partitioning / inlining made of one source call"""
+    out = {}
+    for (root, g, sites) in contexts:
+        for cs in sites:
+            fld = h03.handler_field(cs) or h03.stale_handler(g, cs)[0]
+            out.setdefault((fld, cs.get('loc')), []).append((root, g, cs))
+    return out
+
+
+def _inst(fld, loc, groups):
+    """instance key: the band; the enclosing function is added only when one band has several source sites"""
+    same = sorted(l for (f, l) in groups if f == fld)
+    return fld if len(same) == 1 else '%s#%d' % (fld, same.index(loc) + 1)
+
+
 def dispatch(ctx):
+    """Every call through a band handler of a descriptor, in every smallest root context that
+    contains it (helpers inlined), grouped by source location."""
     prog = ctx.prog
-    f = prog.fn('iv_fd_poll_and_run')
-    g = Inliner(prog, stop=lambda t: t.name in ('iv_fd_timeout_check',)).inline(f)
-    sites = [e for e in g.events() if callback_kind(e) == ('callback', 'fd')]
-    if len(sites) != 3:
-        raise AnalysisBroken('descriptor handler call sites: %d found, 3 confirmed' % len(sites))
-    hd = holding(g, user_call_kills=False)
-    lps = loops(g)
-    order = []
-    for cs in sites:
-        m = strip(cs['fnexpr'])
-        fld = m['field']
-        obj = canon(m['base'])
-        order.append((cs['_b'], fld))
-        A = hd.get((cs['_b'], cs['_i']), frozenset())
-        band = any(a[0] == '!=' and a[2] == '0' and a[1] == '(%s->ready_bands & %d)' % (obj, BANDS[fld]) for a in A)
-        nonnull = any(a[0] == '!=' and a[2] == '0' and a[1] == '%s->%s' % (obj, fld) for a in A)
-        ctx.ob('R-C03a', 'dispatch:%s:band-reported' % fld, band, loc=cs['loc'],
-               detail='call is on the edge (%s->ready_bands & %d) != 0' % (obj, BANDS[fld]), path=None if band else path_to(g, cs), fn=f.q)
-        ctx.ob('R-C03a', 'dispatch:%s:handler-set' % fld, nonnull, loc=cs['loc'],
-               detail='call is on the edge %s->%s != NULL (same object, same band)' % (obj, fld), fn=f.q)
-        ck = len(cs['args']) == 1 and canon(cs['args'][0]) == '%s->cookie' % obj
-        ctx.ob('R-C03a', 'dispatch:%s:cookie' % fld, ck, loc=cs['loc'], detail='argument is %s' % canon(cs['args'][0]), fn=f.q)
-        h = innermost_loop(g, cs['_b'], lps)
-        inner = [x for x in lps if x != h and cs['_b'] in lps[x] and len(lps[x]) < len(lps.get(h, ()))]
-        ctx.ob('R-C03a', 'dispatch:%s:once-per-iteration' % fld, h is not None and not inner, loc=cs['loc'],
-               detail='the call is not inside an inner loop of the dispatch loop', fn=f.q)
-        def tr(e, s, obj=obj):
-            return True if (is_call(e, ('iv_list_del', 'iv_list_del_init')) and canon(e['args'][0]) == '&%s->list_active' % obj) else s
-        def edge(blk, si, s, h=h):
-            return False if blk.succ[si] == h else s
-        _, ev_in = forward(g, False, tr, lambda a, b: a and b, edge=edge)
-        ctx.ob('R-C03a', 'dispatch:%s:left-batch-first' % fld, bool(ev_in.get((cs['_b'], cs['_i']))), loc=cs['loc'],
-               detail='the descriptor is unlinked from the active batch before its handler (one dispatch per collected event set)', fn=f.q)
-    # order err -> in -> out : each later call is not reachable back to an earlier one without passing the loop head
-    pos = {fld: cs for cs, fld in ((s, strip(s['fnexpr'])['field']) for s in sites)}
-    def reaches(a, b, h):
-        seen, st = set(), [a['_b']]
-        first = True
-        while st:
-            x = st.pop()
-            if x in seen:
+    contexts = h03.dispatch_contexts(prog)
+    groups = _by_site(contexts)
+    missing = [f for f in BANDS if not any(k[0] == f for k in groups)]
+    if missing:
+        raise AnalysisBroken('no descriptor handler call site for band(s) %s' % ', '.join(sorted(missing)))
+    fact_cache, flow_cache, left_cache = {}, {}, {}
+    for (fld, loc) in sorted(groups, key=lambda k: (ORDER.index(k[0]), str(k[1]))):
+        inst = _inst(fld, loc, groups)
+        res = {'band': True, 'set': True, 'cookie': True, 'unlinked': True, 'order': True, 'current': True}
+        det = {}
+        bad_path = None
+        live = [x for x in groups[(fld, loc)] if h03.handler_field(x[2])]
+        for (root, g, cs) in groups[(fld, loc)]:
+            if not h03.handler_field(cs):
+                res['current'] = False
+                det.setdefault('current', 'called through %s, loaded from %s->%s before a user callback or a store to that field'
+                               % (canon(cs['fnexpr']), h03.stale_handler(g, cs)[1], fld))
+                bad_path = bad_path or path_to(g, cs)
                 continue
-            seen.add(x)
-            for s_ in g.blocks[x].succ:
-                if s_ is None or s_ == h:
-                    continue
-                st.append(s_)
-        return b['_b'] in seen and b['_b'] != a['_b']
-    h = innermost_loop(g, sites[0]['_b'], lps)
-    ok = reaches(pos['handler_err'], pos['handler_in'], h) and reaches(pos['handler_in'], pos['handler_out'], h) \
-        and not reaches(pos['handler_in'], pos['handler_err'], h) and not reaches(pos['handler_out'], pos['handler_in'], h)
-    ctx.ob('R-C03a', 'dispatch:order', ok, loc=f.loc, detail='within one iteration: error band, then input, then output', fn=f.q)
+            objx, obj = h03.site_object(cs)
+            if id(g) not in fact_cache:
+                fact_cache[id(g)] = h03.facts(g)
+            A = fact_cache[id(g)](cs)
+            # (1) the facts that hold at the call refute every valuation in which the band bit of this
+            #     descriptor is clear / its handler pointer is NULL
+            for rb in range(16):
+                for hset in (0, 1):
+                    if (rb & BANDS[fld]) and hset:
+                        continue
+                    if h03.refuted(A, h03.field_leaf(obj, {'ready_bands': rb, fld: hset})):
+                        continue
+                    if not (rb & BANDS[fld]):
+                        res['band'] = False
+                        det.setdefault('band', 'reachable with %s->ready_bands == %d' % (obj, rb))
+                        bad_path = bad_path or path_to(g, cs)
+                    if not hset:
+                        res['set'] = False
+                        det.setdefault('set', 'reachable with %s->%s == NULL' % (obj, fld))
+            # (2) the argument is the cookie field of the same descriptor
+            a0 = strip(cs['args'][0]) if len(cs.get('args', [])) == 1 else None
+            if not (isinstance(a0, dict) and a0.get('k') == 'member' and a0.get('record') in h03.FD_RECORDS
+                    and a0.get('field') == 'cookie' and canon(a0['base']) == obj):
+                res['cookie'] = False
+                det.setdefault('cookie', 'argument is %s' % (canon(cs['args'][0]) if cs.get('args') else 'missing'))
+            # (3) since the definition of the descriptor variable: it left the batch, and only earlier
+            #     bands of it were dispatched (at most once per collected event set, order err, in, out)
+            rv = root_var(objx)
+            rname = rv['name'] if rv is not None else None
+            key = (id(g), obj, rname)
+            if key not in flow_cache:
+                def tr_called(e, s, obj=obj, rname=rname):
+                    if rname is not None and h03.redefines(e, rname):
+                        return frozenset()
+                    hf = h03.handler_field(e)
+                    if hf and h03.site_object(e)[1] == obj:
+                        return s | {hf}
+                    sh = h03.stale_handler(g, e) if e['ev'] == 'call' and 'fnexpr' in e else None
+                    if sh and sh[1] == obj:
+                        return s | {sh[0]}
+                    return s
+                _, called = forward(g, frozenset(), tr_called, lambda a, b: a | b)
+                flow_cache[key] = called
+            called = flow_cache[key]
+            if id(g) not in left_cache:
+                left_cache[id(g)] = h03.left_batch(g)
+            if rname is None or obj != rname or rname not in left_cache[id(g)].get((cs['_b'], cs['_i']), ()):
+                res['unlinked'] = False
+                bad_path = bad_path or path_to(g, cs)
+            before = set(called.get((cs['_b'], cs['_i']), ()))
+            if not before <= set(ORDER[:ORDER.index(fld)]):
+                res['order'] = False
+                det.setdefault('order', 'already dispatched for this descriptor on some path: %s' % sorted(before))
+        root, g, cs = (live or groups[(fld, loc)])[0]
+        ctx.ob('R-C03a', 'dispatch:%s:current-pointer' % inst, res['current'], loc=loc,
+               detail=det.get('current') or 'the call reads the handler field at the call (or a copy nothing could have invalidated)',
+               path=None if res['current'] else bad_path, fn=root.q)
+        if not live:
+            continue
+        obj = h03.site_object(cs)[1]
+        ctx.ob('R-C03a', 'dispatch:%s:band-reported' % inst, res['band'], loc=loc,
+               detail=det.get('band') or 'every path to the call took, after the last write/callback, a branch that implies '
+                                         '(%s->ready_bands & %d) != 0' % (obj, BANDS[fld]),
+               path=None if res['band'] else bad_path, fn=root.q)
+        ctx.ob('R-C03a', 'dispatch:%s:handler-set' % inst, res['set'], loc=loc,
+               detail=det.get('set') or 'every path to the call took, after the last write/callback, a branch that implies '
+                                        '%s->%s != NULL (same object, same band)' % (obj, fld), fn=root.q)
+        ctx.ob('R-C03a', 'dispatch:%s:cookie' % inst, res['cookie'], loc=loc,
+               detail=det.get('cookie') or 'argument is the cookie field of %s' % obj, fn=root.q)
+        ctx.ob('R-C03a', 'dispatch:%s:left-batch-first' % inst, res['unlinked'], loc=loc,
+               detail='between the definition of %s and its handler call the descriptor is unlinked from the active batch '
+                      '(one dispatch per collected event set)' % obj, path=None if res['unlinked'] else bad_path, fn=root.q)
+        ctx.ob('R-C03a', 'dispatch:%s:once-in-order' % inst, res['order'], loc=loc,
+               detail=det.get('order') or 'since the definition of %s only earlier bands (%s) were dispatched for it: at most once per '
+                                          'iteration, order error, input, output' % (obj, ', '.join(ORDER[:ORDER.index(fld)]) or 'none'),
+               fn=root.q)
 
 
 def still_registered(ctx):
     """A handler may unregister its own descriptor: every later band of the same
     iteration re-tests the liveness marker (shares the stale-pointer analysis of C01)."""
-    from ..analyses import stale_after_callback
     prog = ctx.prog
-    f = prog.fn('iv_fd_poll_and_run')
-    g = Inliner(prog, stop=lambda t: t.name in ('iv_fd_timeout_check',)).inline(f)
-    reps, objvars, markers = stale_after_callback(g, lambda e: (callback_kind(e) or ('', ''))[0] == 'callback' and callback_kind(e)[1])
-    fdvars = [v for v, r in objvars.items() if r == 'iv_fd_']
-    if not fdvars:
+    n = 0
+    for (root, g, sites) in h03.dispatch_contexts(prog):
+        reps, objvars, markers = h03.stale_after_callback(g, lambda e: (callback_kind(e) or ('', ''))[0] == 'callback' and callback_kind(e)[1])
+        # the descriptor variables the sites dispatch through (by use, not by name)
+        fdvars = sorted({rv['name'] for rv in (root_var(h03.site_object(cs)[0]) for cs in sites if h03.handler_field(cs)) if rv is not None and rv['name'] in objvars})
+        for k, v in enumerate(fdvars):
+            n += 1
+            bad = [(e, acc) for (e, vv, acc, cb) in reps if vv == v]
+            e0 = bad[0][0] if bad else None
+            ctx.ob('R-C03a', 'dispatch:%s:descriptor-registered-at-each-band%s' % (root.name, '' if len(fdvars) == 1 else '#%d' % (k + 1)),
+                   not bad, loc=e0['loc'] if e0 else root.loc,
+                   detail=('after an earlier band\'s handler the descriptor is used without re-testing its liveness marker: %s'
+                           % ', '.join(sorted({a for _, a in bad}))) if bad else
+                          'each later band of the same iteration is behind a test of the liveness marker (%s)' % sorted(markers),
+                   path=path_to(g, e0) if e0 else None, fn=root.q)
+    if not n:
         raise AnalysisBroken('dispatcher: descriptor variable not found')
-    for v in fdvars:
-        bad = [(e, acc) for (e, vv, acc, cb) in reps if vv == v]
-        e0 = bad[0][0] if bad else None
-        ctx.ob('R-C03a', 'dispatch:%s-registered-at-each-band' % v, not bad, loc=e0['loc'] if e0 else f.loc,
-               detail=('after an earlier band\'s handler the descriptor is used without re-testing st->handled_fd: %s'
-                       % ', '.join(sorted({a for _, a in bad}))) if bad else
-                      'each later band of the same iteration is behind a test of the liveness marker (%s)' % sorted(markers),
-               path=path_to(g, e0) if e0 else None, fn=f.q)
+
+
+# abstract value of OBJ->ready_bands (and of integer locals): (keeps the old bits, band parameters or-ed in, constant bits)
+UNKNOWN = 'unknown'
+
+
+def _vor(a, b):
+    if a == UNKNOWN or b == UNKNOWN:
+        return UNKNOWN
+    return (a[0] or b[0], a[1] | b[1], a[2] | b[2])
 
 
 def ready_bits(ctx):
     prog = ctx.prog
-    ws = {}
-    for (fn, e) in prog.writers_of('iv_fd_', 'ready_bands'):
-        ws.setdefault(fn.name, []).append(e)
-    ctx.ob('R-C03b', 'ready_bands:writers', set(ws) <= {'iv_fd_make_ready', 'iv_fd_register_prologue'} and 'iv_fd_make_ready' in ws,
-           loc=list(ws.values())[0][0]['loc'], detail='writers: %s' % sorted(ws))
-    f = prog.fn('iv_fd_make_ready')
-    links = [e for e in f.events() if is_call(e, ('iv_list_add', 'iv_list_add_tail')) and c01._list_arg_member(e) == ('iv_fd_', 'list_active')]
-    stores = [e for e in f.events() if e['ev'] == 'store' and last_member(e['lhs']) == ('iv_fd_', 'ready_bands')]
+    rts = h03.root_map(prog)
+    linkers = roles.functions_with(prog, h03.is_link)
+    if not linkers:
+        raise AnalysisBroken('no function links a descriptor into an active batch')
+    # the make-ready operations: smallest root contexts that put a descriptor into a batch
+    mk = {}
+    for o in linkers:
+        mk.update(h03.nearest_roots(prog, o, rts))
+    if not mk:
+        raise AnalysisBroken('batch linking code is not reachable from any entry point')
+    # ---- who writes the readiness bits ------------------------------------------------------
+    wroots = {}
+    for f in roles.functions_with(prog, lambda e: h03.writes_field(e, FD, 'ready_bands')):
+        wroots.update(h03.nearest_roots(prog, f, rts))
+    for q in sorted(wroots):
+        r = wroots[q]
+        if q in mk:
+            ctx.ob('R-C03b', 'ready_bands:writer:%s' % r.name, True, loc=r.loc,
+                   detail='make-ready operation (links into a batch); its effect on the bits is the value obligation', fn=q)
+            continue
+        g = h03.inlined(prog, r)
+        stores = [e for e in g.events() if h03.writes_field(e, FD, 'ready_bands')]
+        registers = any(h03.writes_field(e, FD, 'registered') and e.get('op') == '=' and 'rhs' in e and h03.const_value(e['rhs']) not in (None, 0)
+                        for e in g.events())
+        zero = all(e.get('op') == '=' and 'rhs' in e and h03.const_value(e['rhs']) == 0 for e in stores)
+        e0 = ([e for e in stores if not (e.get('op') == '=' and 'rhs' in e and h03.const_value(e['rhs']) == 0)] or stores)[0]
+        ctx.ob('R-C03b', 'ready_bands:writer:%s' % r.name, registers and zero, loc=e0['loc'],
+               detail='besides the make-ready operation only registration (an entry point that sets registered) writes ready_bands, '
+                      'and it writes 0: %s' % ', '.join(sorted({describe(e) for e in stores})), fn=q)
+    # ---- effect of a make-ready operation on the bits, as a function of old value and arguments ----
+    for q in sorted(mk):
+        _make_ready_value(ctx, prog, mk[q])
+    # ---- who may make a descriptor ready: only poll slots, only after the kernel wait ----------
+    slots = {f.q for f in prog.slot_targets('poll')}
+    if not slots:
+        raise AnalysisBroken('no poll slot found in the method tables')
+    mkq = set(mk)
+    croots = {}
+    for q in sorted(mk):
+        for (c, e) in prog.callers_of(mk[q].name):
+            u = prog.unit_of(c)
+            t = prog.resolve(u, e['callee']) if u else None
+            if t is not None and t.q != q:
+                continue
+            croots.update(h03.nearest_roots(prog, c, rts))
+    if not croots:
+        raise AnalysisBroken('the make-ready operation is never called')
+    for cq in sorted(croots):
+        r = croots[cq]
+        g = h03.inline(prog, r, stop=lambda t: t.q in mkq) if cq not in mkq else r
+        calls = [e for e in g.events() if e['ev'] == 'call' and 'callee' in e and any(mk[q].name == e['callee'] for q in mk)]
+        ctx.ob('R-C03b', 'make_ready:caller:%s:is-poll-slot' % r.name, cq in slots, loc=r.loc,
+               detail='descriptors are made ready only by code entered through the poll slot of a method table', fn=cq)
+        proven = h03.wait_succeeded(g)
+        bad = [e for e in calls if not proven.get((e['_b'], e['_i']), (None, False))[1]]
+        ctx.ob('R-C03b', 'make_ready:caller:%s:after-kernel-wait' % r.name, bool(calls) and not bad, loc=(bad or calls or [{'loc': r.loc}])[0]['loc'],
+               detail='every path to a make-ready call passes the kernel wait of this iteration (%s) and then a branch that excludes '
+                      'its failure (a failed wait leaves the previous iteration\'s results in the event array)' % '/'.join(h03.WAITS),
+               path=path_to(g, bad[0]) if bad else None, fn=cq)
+
+
+def _make_ready_value(ctx, prog, root):
+    f = h03.inlined(prog, root)
+    fdp = [p['name'] for p in root.params if p.get('record') in h03.FD_RECORDS and p.get('ptr')]
+    batchp = {p['name'] for p in root.params if p.get('record') == 'iv_list_head' and p.get('ptr')}
+    bandp = {p['name'] for p in root.params if not p.get('ptr') and 'record' not in p}
+    if len(fdp) != 1:
+        raise AnalysisBroken('%s: make-ready operation without a single descriptor parameter' % root.name)
+    obj = fdp[0]
+    stores = [e for e in f.events() if h03.writes_field(e, FD, 'ready_bands')]
+    links = [e for e in f.events() if h03.is_link(e)]
     if not stores:
-        raise AnalysisBroken('make_ready: store to ready_bands not found')
-    bandp = f.params[2]['name'] if len(f.params) > 2 else None
-    # abstract value of fd->ready_bands at return, as a function of its old value and the band argument:
-    # states (batch membership at entry, keeps old bits, includes the band argument, constant bits, linked here)
-    def tr(e, S):
+        raise AnalysisBroken('%s: store to ready_bands not found' % root.name)
+
+    store_ids = {id(e) for e in stores}
+
+    def is_bits(x):
+        x = strip(x)
+        return isinstance(x, dict) and x.get('k') == 'member' and (x.get('record'), x.get('field')) == (FD, 'ready_bands') \
+            and canon(x['base']) == obj
+
+    def val(x, cur, loc):
+        x = strip(x)
+        if not isinstance(x, dict):
+            return UNKNOWN
+        k = x.get('k')
+        if h03.const_value(x) is not None:
+            return (False, frozenset(), h03.const_value(x))
+        if is_bits(x):
+            return cur
+        if k == 'var':
+            if x.get('vk') == 'param' and x['name'] in bandp:
+                return (False, frozenset({x['name']}), 0)
+            v = dict(loc).get(x['name'], UNKNOWN)
+            return UNKNOWN if v[0] == 'batch-test' else v
+        if k == 'bin' and x['op'] == '|':
+            return _vor(val(x['l'], cur, loc), val(x['r'], cur, loc))
+        return UNKNOWN
+
+    def batch_test(at):
+        """'empty'/'nonempty' when the atom tests whether OBJ is in a batch"""
+        t = list_empty_test(at, member_key=(FD, 'list_active'))
+        return t if t and h03.list_member_arg(strip(at[3]))[1] == obj else None
+
+    def membership(atoms, S):
+        """restrict the states to those compatible with what the branch says about OBJ being in a batch
+        (tested directly, or through a local that holds the result of such a test)"""
         out = set()
-        for (mem, keep, arg, const, linked) in S:
-            if e in stores:
-                rc = canon(e.get('rhs')) if 'rhs' in e else None
-                rv = strip(e['rhs']) if 'rhs' in e else None
-                if e['op'] == '=' and isinstance(rv, dict) and rv.get('k') == 'int':
-                    keep, arg, const = False, False, rv['v']
-                elif e['op'] == '=' and rc == bandp:
-                    keep, arg, const = False, True, 0
-                elif e['op'] == '|=' and rc == bandp:
-                    arg = True
-                elif e['op'] == '|=' and isinstance(rv, dict) and rv.get('k') == 'int':
-                    const = const | rv['v'] if isinstance(const, int) else const
-                else:
-                    keep, arg, const = None, None, 'unknown'
-            elif e in links:
-                linked = True
-            out.add((mem, keep, arg, const, linked))
-        return frozenset(out)
-    def edge(blk, si, S):
-        if blk.term and blk.term.get('cond') is not None and len(blk.succ) == 2:
-            for at in norm_cond(blk.term['cond'], si == 0):
-                t = list_empty_test(at, member_key=('iv_fd_', 'list_active'))
+        for st in S:
+            for at in atoms:
+                t = batch_test(at)
+                if t and st[2]:
+                    # tested after this operation linked the descriptor: it is in a batch now, whatever it was at entry
+                    if t == 'empty':
+                        st = None
+                        break
+                    continue
+                v = strip(at[3])
+                if t is None and at[2] == '0' and at[0] in ('!=', '==') and isinstance(v, dict) and v.get('k') == 'var':
+                    m = dict(st[3]).get(v['name'])
+                    if isinstance(m, tuple) and m[0] == 'batch-test':
+                        t = m[1] if at[0] == '!=' else {'empty': 'nonempty', 'nonempty': 'empty'}[m[1]]
                 if t:
                     want = 'out' if t == 'empty' else 'in'
-                    S = frozenset((want,) + x[1:] for x in S if x[0] in ('?', want))
-        return S
-    _, ev_in = forward(f, frozenset({('?', True, False, 0, False)}), tr, lambda a, b: a | b, edge=edge)
+                    st = ((want,) + st[1:]) if st[0] in ('?', want) else None
+                    if st is None:
+                        break
+            if st is not None:
+                out.add(st)
+        return frozenset(out)
+
+    def assign(e, st):
+        """states after a store of e['rhs'] (a top-level conditional expression splits the state)"""
+        rhs = strip(e.get('rhs')) if 'rhs' in e else None
+        alts = [(st, rhs)]
+        if isinstance(rhs, dict) and rhs.get('k') == 'cond':
+            alts = []
+            for pol, br in ((True, rhs['a']), (False, rhs['b'])):
+                for s2 in membership(norm_cond(rhs['c'], pol), frozenset({st})):
+                    alts.append((s2, br))
+        return alts
+
+    def tr(e, S):
+        out = set()
+        for st in S:
+            (mem, cur, linked, loc) = st
+            if e['ev'] == 'store' and id(e) in store_ids:
+                if not is_bits(e['lhs']):
+                    out.add((mem, UNKNOWN, linked, loc))
+                    continue
+                for (s2, rhs) in assign(e, st):
+                    (mem2, cur2, linked2, loc2) = s2
+                    if e['op'] == '=':
+                        nv = val(rhs, cur2, loc2)
+                    elif e['op'] == '|=':
+                        nv = _vor(cur2, val(rhs, cur2, loc2))
+                    elif e['op'] == '&=' and h03.const_value(rhs) == 0:
+                        nv = (False, frozenset(), 0)
+                    else:
+                        nv = UNKNOWN
+                    out.add((mem2, nv, linked2, loc2))
+                continue
+            if e['ev'] == 'store':
+                l = strip(e['lhs'])
+                if isinstance(l, dict) and l.get('k') == 'var' and l.get('vk') == 'local' and 'rhs' in e:
+                    for (s2, rhs) in assign(e, st):
+                        (mem2, cur2, linked2, loc2) = s2
+                        d = dict(loc2)
+                        bt = [t for t in (batch_test(at) for at in norm_cond(rhs, True)) if t] if isinstance(rhs, dict) else []
+                        if e['op'] == '=' and len(bt) == 1 and len(norm_cond(rhs, True)) == 1 and linked2 == 0:
+                            nv = ('batch-test', bt[0])
+                        elif e['op'] == '=':
+                            nv = val(rhs, cur2, loc2)
+                        elif e['op'] == '|=':
+                            nv = _vor(d.get(l['name'], UNKNOWN), val(rhs, cur2, loc2))
+                        else:
+                            nv = UNKNOWN
+                        d.pop(l['name'], None)
+                        if nv != UNKNOWN:
+                            d[l['name']] = nv
+                        out.add((mem2, cur2, linked2, frozenset(d.items())))
+                    continue
+            elif e['ev'] == 'decl':
+                d = dict(loc)
+                if d.pop(e.get('name'), None) is not None:
+                    loc = frozenset(d.items())
+            elif h03.is_link(e):
+                linked = (linked + 1) if h03.list_member_arg(e)[1] == obj else 99
+            elif h03.is_unlink(e):
+                linked = 99
+            out.add((mem, cur, linked, loc))
+        return frozenset(out)
+
+    def edge(blk, si, S):
+        if blk.term and blk.term.get('cond') is not None and len(blk.succ) == 2 \
+                and blk.term.get('cls') not in ('SwitchStmt', 'MethodDispatch'):
+            S = membership(norm_cond(blk.term['cond'], si == 0), S)
+        return S if S else None
+
+    init = frozenset({('?', (True, frozenset(), 0), 0, frozenset())})
+    _, ev_in = forward(f, init, tr, lambda a, b: a | b, edge=edge)
     finals = set()
     for (pb, pi, _) in exits_of(f):
-        finals |= set(ev_in.get((pb, pi), ()))
-    finals |= set(ev_in.get((f.exit, 0), ()))
-    okfresh = bool(finals) and all((x[0] == 'out' and x[1:] == (False, True, 0, True)) or
-                                   (x[0] == 'in' and x[1:] == (True, True, 0, False)) for x in finals)
-    ctx.ob('R-C03b', 'make_ready:fresh-bits-when-not-in-batch', okfresh, loc=stores[0]['loc'],
-           detail='abstract value of ready_bands at return (batch membership at entry, keeps old bits, includes band argument, constant bits, linked): %s; '
-                  'required: not in batch -> exactly the band argument and linked; already in batch -> old bits | band argument' % sorted(map(str, finals)), fn=f.q)
-    p0 = f.params[0]['name']
-    ctx.ob('R-C03b', 'make_ready:links-into-callers-batch', bool(links) and all(canon(e['args'][1]) == p0 for e in links), loc=f.loc,
-           detail='linked into the batch list the caller supplied (%s)' % p0, fn=f.q)
-    pollfns = set()
-    for t, slots in prog.method_tables().items():
-        fn = prog.resolve(*slots['poll'])
-        # closure of the poll slot by direct calls
-        work = [fn]
-        while work:
-            x = work.pop()
-            if x.q in pollfns:
-                continue
-            pollfns.add(x.q)
-            u = prog.unit_of(x)
-            for e in x.events():
-                if e['ev'] == 'call' and 'callee' in e:
-                    y = prog.resolve(u, e['callee']) if u else None
-                    if y is not None and y.file == x.file:
-                        work.append(y)
-    callers = {c.q for c, e in prog.callers_of('iv_fd_make_ready')}
-    ctx.ob('R-C03b', 'make_ready:callers', callers <= pollfns and bool(callers), loc=f.loc,
-           detail='called only from poll-slot activation code: %s' % sorted(callers), fn=f.q)
+        finals |= {x[:3] for x in ev_in.get((pb, pi), ())}
+    finals |= {x[:3] for x in ev_in.get((f.exit, 0), ())}
+
+    def good(x):
+        (mem, v, linked) = x
+        if v == UNKNOWN or len(v[1]) != 1 or v[2] != 0:
+            return False
+        return (mem == 'out' and not v[0] and linked == 1) or (mem == 'in' and v[0] and linked == 0)
+    okfresh = bool(finals) and all(good(x) for x in finals) and len({tuple(sorted(x[1][1])) for x in finals if x[1] != UNKNOWN}) == 1
+
+    def show(x):
+        (mem, v, linked) = x
+        vs = v if v == UNKNOWN else ' | '.join((['old bits'] if v[0] else []) + sorted(v[1]) + ([str(v[2])] if v[2] or not (v[0] or v[1]) else []))
+        return '%s batch at entry -> ready_bands = %s, linked %s time(s)' % ({'in': 'in a', 'out': 'not in a', '?': 'untested whether in a'}[mem], vs,
+                                                                             linked if linked < 99 else 'wrongly/several')
+    ctx.ob('R-C03b', 'make_ready:%s:fresh-bits-when-not-in-batch' % root.name, okfresh, loc=stores[0]['loc'],
+           detail='abstract effect at return: %s; required: not in a batch -> exactly the band argument, linked once; already in a batch -> '
+                  'old bits | band argument, not linked again' % '; '.join(sorted(show(x) for x in finals)), fn=root.q)
+    into = []
+    for e in links:
+        a = strip(e['args'][1]) if len(e.get('args', [])) > 1 else None
+        into.append(isinstance(a, dict) and a.get('k') == 'var' and a.get('vk') == 'param' and a['name'] in batchp)
+    ctx.ob('R-C03b', 'make_ready:%s:links-into-callers-batch' % root.name, bool(links) and all(into), loc=root.loc,
+           detail='linked into the batch list the caller supplied (%s)' % ', '.join(sorted(batchp)), fn=root.q)
 
 
 def tokens(ctx):
     prog = ctx.prog
-    # non-descriptor tokens stored into epoll_event.data.ptr, and by which function
-    toks = {}
-    for f in prog.all_funcs():
-        for e in f.events():
-            if e['ev'] == 'store' and e.get('op') == '=' and canon(e['lhs']).endswith('.data.ptr'):
-                r = strip(e['rhs'])
-                if isinstance(r, dict) and r.get('k') == 'var' and r.get('record') == 'iv_fd_':
-                    continue
-                toks.setdefault(canon(e['rhs']), []).append(f)
+    # non-descriptor tokens stored as kernel user data (epoll_event.data.ptr), and by which function
+    toks = {t: fns for t, fns in h03.stored_tokens(prog).items() if t != ('fd',)}
     if len(toks) < 2:
-        raise AnalysisBroken('kernel tokens stored into epoll_event.data.ptr: %s' % sorted(toks))
+        raise AnalysisBroken('kernel tokens stored into epoll_event.data.ptr: %s' % sorted(map(h03.token_name, toks)))
     mpriv = generic._method_private(prog)
+    rts = h03.root_map(prog)
+    mk = {}
+    for o in roles.functions_with(prog, h03.is_link):
+        mk.update(h03.nearest_roots(prog, o, rts))
+    mknames = {r.name for r in mk.values()}
+    mkq = set(mk)
     for t, slots in sorted(prog.method_tables().items()):
         if not slots.get('event_rx_on'):
             continue
@@ -204,21 +437,51 @@ def tokens(ctx):
             for fn in fns:
                 if fn.q not in mpriv or t in mpriv[fn.q]:
                     mine.add(tok)
-        g = Inliner(prog, method_table=t, expand_methods=True, stop=lambda x: x.name in ('iv_fd_make_ready', 'iv_event_run_pending_events')).inline(f)
-        hd = holding(g, user_call_kills=False)
-        calls = [e for e in g.events() if is_call(e, 'iv_fd_make_ready')]
+        # the poll slot with its helpers inlined; the make-ready operation stays a call
+        g = h03.inline(prog, f, method_table=t, expand_methods=True, stop=lambda x: x.q in mkq)
+        at = h03.facts(g)
+        calls = [e for e in g.events() if e['ev'] == 'call' and e.get('callee') in mknames]
         if not calls:
             raise AnalysisBroken('%s: activation code not found' % f.name)
         for tok in sorted(mine):
-            # token as seen from the poll slot: `dest`/`st` are the state pointer
-            tk = 'st' if tok in ('st', 'dest') else tok
             ok = True
+            bad = None
             for e in calls:
-                A = hd.get((e['_b'], e['_i']), frozenset())
-                if not any(a[0] == '!=' and a[1].endswith('.data.ptr') and a[2] == tk for a in A):
+                # the expression(s) the descriptor argument was loaded from
+                srcs = _descriptor_sources(g, e)
+                differs = set()      # canon of the kernel entries known to differ from the token here
+                for (op, l, r) in at(e):
+                    if op != '!=':
+                        continue
+                    for (x, y) in ((l, r), (r, l)):
+                        if h03.kernel_entry_ptr(x) and h03.abstract_token(y) == tok:
+                            differs.add(canon(x))
+                if not srcs or not srcs <= differs:
                     ok = False
-            ctx.ob('R-C03d', '%s:token %s' % (t.replace('iv_fd_poll_method_', ''), tk), ok, loc=f.loc,
-                   detail='every use of a batch entry as a descriptor is on the edge data.ptr != %s' % tk, fn=f.q)
+                    bad = bad or e
+            ctx.ob('R-C03d', '%s:token %s' % (t.replace('iv_fd_poll_method_', ''), h03.token_name(tok)), ok, loc=(bad or {'loc': f.loc})['loc'],
+                   detail='every kernel entry used as a descriptor was compared unequal to %s (same entry, still valid at the use)' % h03.token_name(tok),
+                   path=path_to(g, bad) if bad else None, fn=f.q)
+
+
+def _descriptor_sources(g, call):
+    """canon of the kernel-entry expression(s) the descriptor argument of a make-ready call holds:
+    the argument itself when copy propagation put the access path there, else the right-hand sides of
+    the definitions of the argument variable."""
+    out = set()
+    for a in call.get('args', []):
+        x = strip(a)
+        if h03.kernel_entry_ptr(x):
+            out.add(canon(x))
+        elif isinstance(x, dict) and x.get('k') == 'var' and x.get('record') in h03.FD_RECORDS and x.get('ptr'):
+            defs = [e for e in g.events() if e['ev'] == 'store' and h03.redefines(e, x['name'])]
+            if not defs:
+                return set()
+            for d in defs:
+                if d.get('op') != '=' or 'rhs' not in d or not h03.kernel_entry_ptr(d['rhs']):
+                    return set()
+                out.add(canon(d['rhs']))
+    return out
 
 
 def kernel_registration(ctx):
